@@ -1,6 +1,6 @@
 import Updog.Generated
 namespace Updog.Facts
 open Updog.Generated
-theorem C17_facts : openFileOneCriticalSection = true ∧ connCloseRemovesEntry = true ∧ openReadOnlyMustExist = true ∧
+theorem C17_facts : driverMethodSet = true ∧ openFileOneCriticalSection = true ∧ connCloseRemovesEntry = true ∧ openReadOnlyMustExist = true ∧
     closeIdempotent = true := by decide
 end Updog.Facts
